@@ -25,7 +25,7 @@ echo "existing tests     : $existing"
 cd /repo && git apply $out/patch.diff || { echo "PATCH DOES NOT APPLY in /repo"; exit 1; }
 res=""
 for p in "$@"; do
-  o=$(cd /verif && ./check $p quick 2>&1)
+  o=$(cd /verif && VERIF_EVIDENCE_DIR=/tmp/verif-seed-evidence ./check $p quick 2>&1)
   rc=$?
   echo "--- check $p rc=$rc"; echo "$o" | grep "failed obligation\|VIOLATION\|property" | cut -c1-220
   res="$res $p:rc=$rc"
